@@ -608,6 +608,22 @@ func evalProc(in *Input, r *Result, p *spec.Proc, files map[string][]byte,
 			streamOut[n] = true
 		}
 	}
+	// parameter ports that exist only because something is connected to them (InParam(name) without a {p:name}
+	// in the command): they take part in forming tasks and in the audit record, but the command does not see them
+	hidden := map[string]bool{}
+	for _, f := range p.Feeds {
+		if _, ok := ports[f.Port]; !ok && !hidden[f.Port] {
+			hidden[f.Port] = true
+			paramPorts = append(paramPorts, f.Port)
+		}
+	}
+	for _, cn := range in.Spec.Conns {
+		tp, tport := spec.SplitPort(cn.To)
+		if _, ok := ports[tport]; cn.Param && tp == p.Name && !ok && !hidden[tport] {
+			hidden[tport] = true
+			paramPorts = append(paramPorts, tport)
+		}
+	}
 	outCfg := map[string]*spec.Out{}
 	for _, o := range p.Outs {
 		outCfg[o.Port] = o
@@ -682,7 +698,9 @@ func evalProc(in *Input, r *Result, p *spec.Proc, files map[string][]byte,
 		var keyPars []vproto.KV
 		for _, pt := range paramPorts {
 			t.Params[pt] = pars[pt][j]
-			keyPars = append(keyPars, vproto.KV{K: pt, V: pars[pt][j]})
+			if !hidden[pt] {
+				keyPars = append(keyPars, vproto.KV{K: pt, V: pars[pt][j]})
+			}
 		}
 		t.Key = vproto.TaskKey(p.Name, keyIns, keyPars, keyJoined)
 		// output paths
